@@ -43,10 +43,12 @@ pub fn gen_timing(t: &mut Tape) -> (u32, u32, u32) {
         }
     };
     // The refresh value makes the real client wait that long on the simulated
-    // clock; keep it below a few months so that a run stays far away from the
-    // range of `Instant` (u32::MAX seconds are 136 years per step).
+    // clock. tokio's timer wheel only orders deadlines correctly within 2^36 ms
+    // (about 2.18 years) of the runtime's start - measured: with the paused
+    // clock a `timeout_at` beyond that point never fires before a farther one -
+    // so a whole run has to stay below that: at most about 11 days per wait.
     let refresh = match one(t, 1, 86_400) {
-        u32::MAX => 10_000_000,
+        u32::MAX => 1_000_000,
         r => r,
     };
     (refresh, one(t, 1, 7_200), one(t, 600, 172_800))
@@ -1057,14 +1059,14 @@ impl C06 {
                 let _ = h.await;
             }
         };
-        if tokio::time::timeout(Duration::from_secs(50 * 365 * 24 * 3600), all).await.is_err() {
+        if tokio::time::timeout(Duration::from_secs(600 * 24 * 3600), all).await.is_err() {
             if let Some(p) = take_panics().first() {
                 return Err(Violation::new("panic", "task", format!("a task panicked: {}", p)));
             }
             return Err(Violation::new(
                 "hang",
                 "",
-                "routers did not finish their steps within 50 simulated years: some future never completes",
+                "routers did not finish their steps within 600 simulated days: some future never completes",
             ));
         }
         chaos_handle.abort();
@@ -1109,7 +1111,7 @@ impl C06 {
             let probe_router = RouterCfg { id: 99, initial_version: v, init: InitState::None, steps: 4 };
             let before = sh.counters.lock().unwrap().get("steps_completed");
             let h = tokio::spawn(router(sh.clone(), probe_router));
-            let _ = tokio::time::timeout(Duration::from_secs(10 * 365 * 24 * 3600), h).await;
+            let _ = tokio::time::timeout(Duration::from_secs(100 * 24 * 3600), h).await;
             let after = sh.counters.lock().unwrap().get("steps_completed");
             if after > before {
                 sh.bump("probe_converged_after_faults");
@@ -1137,6 +1139,9 @@ impl C06 {
         tokio::task::yield_now().await;
 
         out.sim_ms = (Instant::now() - start).as_millis() as u64;
+        if out.sim_ms > (1u64 << 36) - 1_000_000 {
+            crate::common::harness_fail("simulated time left the range tokio's timer wheel orders correctly (2^36 ms)");
+        }
         for c in sh.conns.lock().unwrap().iter() {
             c.c2s.lock().unwrap().self_check();
             c.s2c.lock().unwrap().self_check();
